@@ -29,8 +29,8 @@ func fnvFrom(h uint64, b []byte) uint64 {
 
 const alpha = "abcdefghijklmnopqrstuvwxyz012345"
 
-func enc(h uint64, out *[12]byte) {
-	for i := 0; i < 12; i++ {
+func enc(h uint64, out *[13]byte) {
+	for i := 0; i < 13; i++ {
 		out[i] = alpha[h&31]
 		h >>= 5
 	}
@@ -47,7 +47,7 @@ func TestCollide(t *testing.T) {
 		t.Fatal(err)
 	}
 	defer drv.Close()
-	doc, _ := parser.Parse(parser.ParseParams{Source: mk("AAAAAAAAAAAA")})
+	doc, _ := parser.Parse(parser.ParseParams{Source: mk("AAAAAAAAAAAAA")})
 	nd, _, key, _ := graphql.VerifNormalizeDocument(s, doc, "")
 	req, _ := fpRequest(nd, "")
 	var fr struct {
@@ -61,14 +61,14 @@ func TestCollide(t *testing.T) {
 		t.Fatalf("model fingerprint %s != real %s", fr.Fp, key)
 	}
 	bs, _ := hex.DecodeString(fr.Bytes)
-	idx := bytes.Index(bs, []byte("AAAAAAAAAAAA"))
+	idx := bytes.Index(bs, []byte("AAAAAAAAAAAAA"))
 	if idx < 0 {
 		t.Fatal("placeholder not found")
 	}
 	h0 := fnvFrom(fnvOff, bs[:idx])
 	t.Logf("prefix %q", bs[:idx])
 	f := func(h uint64) uint64 {
-		var b [12]byte
+		var b [13]byte
 		enc(h, &b)
 		return fnvFrom(h0, b[:])
 	}
@@ -97,7 +97,7 @@ func TestCollide(t *testing.T) {
 		tort = f(tort)
 		hare = f(hare)
 	}
-	var a, b [12]byte
+	var a, b [13]byte
 	enc(pt, &a)
 	enc(ph, &b)
 	t.Logf("collision after %v: %q %q", time.Since(start), a[:], b[:])
